@@ -77,7 +77,7 @@ func cmdBtScan(args []string) {
 				bad = i
 			}
 		}
-		scanIdx := len(lines) - 2
+		scanIdx := len(lines) - 3
 		rep.Extra["rows_streamed"] += strings.Count(impl[scanIdx], " | ")
 		if len(rep.Samples) < 2 {
 			rep.Samples = append(rep.Samples, fmt.Sprintf("%s: %d rows x %d cells, ranges=%d keys=%d, %d flush points: %s ...", p.Engine, p.NRows, p.Cells, len(p.Ranges), len(p.Keys), len(p.Flushes), lines[scanIdx][:min(len(lines[scanIdx]), 400)]))
